@@ -288,6 +288,13 @@ func c18Init() {
 	// long ids (> 32 bytes) so that any size-dependent path of the hasher or parser is taken
 	c18Inputs.feeds = c06FeedsWith(date, fmt.Sprintf("x%dLONGIDLONGIDLONGIDLONGIDLONGIDLONGID", c18Salt))
 	m := genStaticFeedN(&Ctx{}, false, baseCounts, nil, nil)
+	{
+		// boarding area -> platform -> station: the results are walked (Stop.Root) by the thread that parsed them
+		st := m.t("stops.txt")
+		p2, _ := st.get(1, "stop_id")
+		st.set(2, "parent_station", p2)
+		st.set(2, "location_type", "4")
+	}
 	cal := m.t("calendar.txt")
 	for r := range cal.Rows {
 		cal.set(r, "start_date", date)
